@@ -19,7 +19,8 @@
        "tag or text", "tags only"); without the guard the statement is FALSE for the code as it is (C05_following_refuted),
      the partition: reversed preceding ++ [n] ++ following = all objects of the tree in document order,
      last_descendant (= last visible descendant, same guard),
-     traverse_bf_ltr_ttb (any passed filter) and traverse_df_ltr_btt, run without ambient filter, = level order / post-order;
+     traverse_bf_ltr_ttb and traverse_df_ltr_btt (any passed filter; the latter keeps the given root), run without ambient
+       filter, = level order / post-order restricted to matching nodes;
        the three orders are permutations of the subtree's nodes,
      _sort_nodes_in_document_order (no ambient filter, tag nodes of the tree) = the offered nodes in document order,
      fetch_following / fetch_preceding = heads of the axes,
@@ -155,9 +156,13 @@ Theorem C05_traverse_bf : forall c inh, el_ok c = true -> NoDup (cel_ids c) ->
 Proof. exact c_traverse_bf_abs. Qed.
 Print Assumptions C05_traverse_bf.
 Theorem C05_traverse_df_btt : forall c inh, el_ok c = true -> NoDup (cel_ids c) ->
-  forall n, In n (ids (abs_el inh c)) -> c_traverse_df_btt c ftrue ftrue n = Ok (a_df_btt (abs_el inh c) n).
+  forall F n, In n (ids (abs_el inh c)) ->
+  c_traverse_df_btt c ftrue F n = Ok (filter (fun x => N.eqb x n || F x) (a_df_btt (abs_el inh c) n)).
 Proof. exact c_traverse_df_btt_abs. Qed.
 Print Assumptions C05_traverse_df_btt.
+(* regression for finding C05-df-btt-prunes (repaired in b0bcfbb): <r><a>x</a></r> with the filter "text nodes" *)
+Example C05_traverse_df_btt_regression : c_traverse_df_btt refute_tree ftrue (fun i => N.eqb i 2) 0%N = Ok [2; 0]%N.
+Proof. exact df_btt_filtered_regression. Qed.
 Theorem C05_traversers_same_nodes : forall t, NoDup (ids t) -> forall n, In n (ids t) ->
   Permutation (a_df_ttb t n) (a_bf_ttb t n) /\ Permutation (a_df_btt t n) (a_df_ttb t n)
   /\ a_df_ttb t n = n :: a_descendants t n.
@@ -188,24 +193,6 @@ Theorem C05_following_passed_filters : forall c inh, el_ok c = true -> NoDup (ce
   c_iterate_following c ftrue F n = Ok (filter F (a_following (abs_el inh c) n)).
 Proof. exact c_following_passed. Qed.
 Print Assumptions C05_following_passed_filters.
-
-(* traverse_df_ltr_btt with passed filters: exact description (post-order through matching children only) ... *)
-Theorem C05_traverse_df_btt_filtered : forall c inh, el_ok c = true -> NoDup (cel_ids c) ->
-  forall F n, In n (ids (abs_el inh c)) -> c_traverse_df_btt c ftrue F n = Ok (a_df_btt_pruned (abs_el inh c) F n).
-Proof. exact c_traverse_df_btt_filtered. Qed.
-Print Assumptions C05_traverse_df_btt_filtered.
-(* ... the restriction of the unfiltered sequence (given root kept) under the decidable guard "a non-matching node has only
-   non-matching descendants"; the unguarded statement is false for the code as it is (finding C05-df-btt-prunes) *)
-Theorem C05_traverse_df_btt_partial : forall c inh, el_ok c = true -> NoDup (cel_ids c) ->
-  forall F n, up_closed_b F (abs_el inh c) = true -> In n (ids (abs_el inh c)) ->
-  c_traverse_df_btt c ftrue F n = Ok (filter F (removelast (a_df_btt (abs_el inh c) n)) ++ [n]).
-Proof. exact c_traverse_df_btt_partial. Qed.
-Print Assumptions C05_traverse_df_btt_partial.
-Theorem C05_traverse_df_btt_refuted : exists c F n,
-  el_ok c = true /\ nodupb (cel_ids c) = true /\ In n (ids (abs_el [] c)) /\
-  c_traverse_df_btt c ftrue F n <> Ok (filter F (removelast (a_df_btt (abs_el [] c) n)) ++ [n]).
-Proof. exact df_btt_filtered_refuted. Qed.
-Print Assumptions C05_traverse_df_btt_refuted.
 
 (* full_text *)
 Theorem C05_full_text : forall c inh, el_ok c = true -> NoDup (cel_ids c) ->
